@@ -1232,12 +1232,143 @@ func runBest1(m *Model, r *RuleResult) {
 		} else {
 			r.add(Obligation{Key: key + ":logged", Pos: pos, Desc: "the count logged under \"crossings\" must be the selected count", Verdict: "violation", Detail: "a Log(\"crossings\", ...) does not receive the selected count " + strings.Join(strayLog, ","), Control: ctl})
 		}
+		// nothing re-orders after the restore: from the store that restores LayerPos onwards, the only modification of order
+		// state (Node.LayerPos, the order of Layer.Nodes, the selected positions map) is the sort of each layer by LayerPos
+		var restoreStores []ssa.Instruction
+		eachInstr(f, func(in ssa.Instruction) {
+			if st, ok := in.(*ssa.Store); ok {
+				if fa, ok := st.Addr.(*ssa.FieldAddr); ok {
+					_, steps := fieldChain(fa)
+					if locOfSteps(steps) == igNode+".LayerPos" {
+						restoreStores = append(restoreStores, in)
+					}
+				}
+			}
+		})
+		var late []string
+		if len(restoreStores) > 0 {
+			after := map[*ssa.BasicBlock]bool{}
+			for _, rs := range restoreStores {
+				after[rs.Block()] = true
+				for b := range blocksReachableFrom(rs.Block()) {
+					after[b] = true
+				}
+			}
+			eachInstr(f, func(in ssa.Instruction) {
+				ci, ok := in.(ssa.CallInstruction)
+				if !ok || !after[in.Block()] {
+					return
+				}
+				if _, isB := ci.Common().Value.(*ssa.Builtin); isB {
+					return
+				}
+				for _, cal := range m.Callees(ci) {
+					if inModule(cal) {
+						e := m.effects[cal]
+						if e == nil {
+							continue
+						}
+						if e.Mod[igNode+".LayerPos"] || e.Mod[igLayer+".Nodes[]"] || e.Mod[igLayer+".Nodes"] {
+							late = append(late, funcKey(cal)+" at "+m.Pos(in.Pos()))
+						}
+						// the selected positions map handed to a callee that writes map cells
+						for i, a := range ci.Common().Args {
+							if (a == ssa.Value(pphi)) && e.ParamWrites[i]["map"] {
+								late = append(late, funcKey(cal)+" at "+m.Pos(in.Pos())+" (updates the selected positions)")
+							}
+						}
+						continue
+					}
+					name := calleeFullName(ci.Common())
+					idx, isMut := extMutators[name]
+					if !isMut || idx < 0 || idx >= len(ci.Common().Args) {
+						continue
+					}
+					touchesOrder := false
+					for _, o := range originsOf(ci.Common().Args[idx], 0) {
+						if (o.Kind == "fieldload" || o.Kind == "fieldaddr") && o.Loc == igLayer+".Nodes" {
+							touchesOrder = true
+						}
+					}
+					if touchesOrder && !sortsByLayerPos(ci) {
+						late = append(late, name+" at "+m.Pos(in.Pos())+" (not a sort by LayerPos)")
+					}
+				}
+			})
+		}
+		if len(late) == 0 && len(restoreStores) > 0 {
+			r.add(Obligation{Key: key + ":final", Pos: pos, Desc: "after the best positions are restored nothing re-orders the layers (only the sort of each layer by LayerPos follows)", Verdict: "holds", Control: ctl})
+		} else if len(restoreStores) > 0 {
+			r.add(Obligation{Key: key + ":final", Pos: pos, Desc: "the restored order must be the final order of the phase", Verdict: "violation",
+				Detail: "order state is modified after the reported order was restored: " + strings.Join(uniq(late), "; ") + " - the drawing then shows another order than the one whose crossings were reported", Control: ctl})
+		}
 		if restored {
 			r.add(Obligation{Key: key + ":restored", Pos: pos, Desc: "Node.LayerPos is restored from the selected positions", Verdict: "holds", Control: ctl})
 		} else {
 			r.add(Obligation{Key: key + ":restored", Pos: pos, Desc: "Node.LayerPos must be restored from the selected positions", Verdict: "violation", Detail: "Node.LayerPos is stored from something other than the selected map " + strings.Join(strayRestore, ","), Control: ctl})
 		}
 	}
+}
+
+// sortsByLayerPos: the call is sort.Slice / sort.SliceStable / slices.SortFunc / slices.SortStableFunc with a comparison
+// closure that compares nothing but the LayerPos of two elements.
+func sortsByLayerPos(ci ssa.CallInstruction) bool {
+	args := ci.Common().Args
+	if len(args) < 2 {
+		return false
+	}
+	var fn *ssa.Function
+	switch x := args[1].(type) {
+	case *ssa.MakeClosure:
+		fn, _ = x.Fn.(*ssa.Function)
+	case *ssa.Function:
+		fn = x
+	}
+	if fn == nil || len(fn.Blocks) == 0 {
+		return false
+	}
+	ok := false
+	for _, b := range fn.Blocks {
+		ret, isRet := b.Instrs[len(b.Instrs)-1].(*ssa.Return)
+		if !isRet || len(ret.Results) != 1 {
+			continue
+		}
+		isPos := func(v ssa.Value) bool {
+			u, isU := v.(*ssa.UnOp)
+			if !isU || u.Op != token.MUL {
+				return false
+			}
+			fa, isFA := u.X.(*ssa.FieldAddr)
+			if !isFA {
+				return false
+			}
+			_, steps := fieldChain(fa)
+			return locOfSteps(steps) == igNode+".LayerPos"
+		}
+		switch x := ret.Results[0].(type) {
+		case *ssa.BinOp:
+			// a.LayerPos < b.LayerPos (bool form) or a.LayerPos - b.LayerPos (cmp form)
+			if (x.Op == token.LSS || x.Op == token.SUB) && isPos(x.X) && isPos(x.Y) {
+				ok = true
+				continue
+			}
+			return false
+		case *ssa.Call:
+			// cmp.Compare(a.LayerPos, b.LayerPos)
+			if c := x.Call.StaticCallee(); c != nil && c.Pkg != nil && c.Pkg.Pkg.Path() == "cmp" && len(x.Call.Args) == 2 && isPos(x.Call.Args[0]) && isPos(x.Call.Args[1]) {
+				ok = true
+				continue
+			}
+			if c := x.Call.StaticCallee(); c != nil && c.Origin() != nil && c.Origin().Pkg != nil && c.Origin().Pkg.Pkg.Path() == "cmp" && len(x.Call.Args) == 2 && isPos(x.Call.Args[0]) && isPos(x.Call.Args[1]) {
+				ok = true
+				continue
+			}
+			return false
+		default:
+			return false
+		}
+	}
+	return ok
 }
 
 func checkBestRun(m *Model, r *RuleResult, f *ssa.Function) {
